@@ -66,10 +66,10 @@ def check(run):
                 x = work.pop()
                 for y, lab in cfg.succ[x]:
                     src = cfg.nodes[x]
-                    if src.kind == 'test':
-                        cc = q.canon_atom(src.ast)
-                        if cc and cc[0] == 'truthy' and cc[1] == 'self._execute_all' and ((lab == 'T') == cc[3]):
-                            continue      # this edge establishes execute_all
+                    if src.kind == 'test' and lab in ('T', 'F'):
+                        from ..cfg import atoms as _atoms
+                        if ('truthy', 'self._execute_all', '') in _atoms(src.ast, lab == 'T'):
+                            continue      # this edge establishes execute_all (alone or as one conjunct of the condition)
                     if y == cn.id:
                         okk = False
                     if y in seen:
